@@ -69,6 +69,14 @@ func TestC06_ContentAddress(t *testing.T) {
 		if err := hashing.IsValidModelMultihash(v, want); err != nil {
 			t.Fatalf("C06 IsValidModelMultihash rejected the hashed value: %v", err)
 		}
+		// a JSON string that spells the value is another value than the value (the canonical form is defined for containers,
+		// so the library may also answer with an error)
+		if err := hashing.IsValidModelMultihash(sp, want); err == nil {
+			t.Fatalf("C06 IsValidModelMultihash accepted the JSON *string* %q against the hash of the value it spells", sp)
+		}
+		if h, err := hashing.CalculateModelMultihash(refJCS(v), alg); err == nil && h == want {
+			t.Fatalf("C06 the JSON string %q hashes like the value it spells", refJCS(v))
+		}
 		// validation: single-point modification => rejected
 		v2, how := mutateValue(t, v)
 		if refJCS(v2) == refJCS(v) {
